@@ -103,17 +103,67 @@ def _parser(ctx):
     return ctx.repo.cls(f"{SYM}:_ExpressionParser")
 
 
+def _module_literal(f: FuncInfo, e):
+    """The literal a module-level constant name stands for (dict / tuple / set / list / frozenset(...) display), else e."""
+    for _ in range(3):
+        if isinstance(e, ast.Name) and e.id in f.module.assigns and e.id not in f.params:
+            e = f.module.assigns[e.id]
+        else:
+            break
+    if isinstance(e, ast.Call) and dotted_of(e.func) in ("frozenset", "set", "tuple", "dict") and len(e.args) == 1:
+        e = e.args[0]
+    return e
+
+
 def _ops_consumed(f: FuncInfo) -> set[str]:
-    """Operator strings compared with ``self.current_token[1]`` in f."""
+    """Operator strings compared with ``self.current_token[1]`` in f (literal collections, or module-level tables whose
+    keys / elements are the operators)."""
     out = set()
     for n in own_nodes(f.node):
         if isinstance(n, ast.Compare) and norm(n.left) == "self.current_token[1]":
             for c in n.comparators:
+                c = _module_literal(f, c)
                 if isinstance(c, ast.Constant) and isinstance(c.value, str):
                     out.add(c.value)
                 elif isinstance(c, (ast.Tuple, ast.Set, ast.List)):
                     out |= {e.value for e in c.elts if isinstance(e, ast.Constant)}
+                elif isinstance(c, ast.Dict):
+                    out |= {k.value for k in c.keys if isinstance(k, ast.Constant)}
     return out
+
+
+_OPERATOR_MODULE_FORMS = {"operator.add": "left + right", "operator.sub": "left - right", "operator.mul": "left * right",
+                          "operator.truediv": "left / right", "operator.floordiv": "left // right", "operator.mod": "left % right",
+                          "operator.pow": "left ** right"}
+
+
+def _callable_form(ctx, f: FuncInfo, v) -> str | None:
+    """What `v(left, right)` builds, for v an entry of an operator dispatch table: a function of the operator module, a SymPy
+    class, or a two-parameter module helper / lambda made of a single expression."""
+    d = dotted_of(v) or ""
+    if d in _OPERATOR_MODULE_FORMS:
+        return _OPERATOR_MODULE_FORMS[d]
+    if d.startswith("sympy."):
+        return f"{d}(left, right)"
+    g, body, params = None, None, None
+    if isinstance(v, ast.Lambda):
+        body, params = v.body, [a.arg for a in v.args.args]
+    elif isinstance(v, ast.Name) and v.id in f.module.functions:
+        g = f.module.functions[v.id]
+        stmts = [s_ for s_ in g.node.body if not (isinstance(s_, ast.Expr) and isinstance(s_.value, ast.Constant))]
+        if len(stmts) == 1 and isinstance(stmts[0], ast.Return) and stmts[0].value is not None:
+            body, params = stmts[0].value, g.params
+    if body is None or len(params) != 2:
+        return None
+    role = {params[0]: "left", params[1]: "right"}
+    touched = [(x, x.id) for x in ast.walk(body) if isinstance(x, ast.Name) and x.id in role]
+    try:
+        for x, old_ in touched:
+            x.id = role[old_]
+        return norm(body)
+    finally:
+        for x, old_ in touched:
+            x.id = old_
 
 
 def _tiers(ctx):
@@ -175,7 +225,9 @@ def rule_r2_r3_r4(ctx):
     # sign applies to the whole following unary expression, never to a token or to a tighter-binding piece of it
     tier_idx = {g.name: i for i, (g, _, _) in enumerate(chain)}
     minus_ifs = [n for n in own_nodes(fu.node) if isinstance(n, ast.If) and any(
-        isinstance(c, ast.Compare) and any(isinstance(k, ast.Constant) and k.value == "-" for k in c.comparators) for c in ast.walk(n.test))]
+        isinstance(c, ast.Compare) and any((isinstance(k, ast.Constant) and k.value == "-") or (
+            isinstance(k, (ast.Tuple, ast.Set, ast.List)) and [e.value for e in k.elts if isinstance(e, ast.Constant)] == ["-"]) for k in c.comparators)
+        for c in ast.walk(n.test))]
     ok = bool(minus_ifs)
     badret = None
     for iff in minus_ifs:
@@ -403,6 +455,28 @@ def rule_r5(ctx):
                 for x, old_ in touched:
                     x.id = old_
 
+        # dispatch through a table: `left = TABLE[op](left, right)` - every entry is checked against the operator's form
+        bound_tables = {n.targets[0].id: n.value for n in ast.walk(loops[0]) if isinstance(n, ast.Assign) and isinstance(n.targets[0], ast.Name)
+                        and isinstance(n.value, ast.Subscript)}
+        for a in (n for n in ast.walk(loops[0]) if isinstance(n, ast.Assign) and isinstance(n.value, ast.Call)):
+            sub = a.value.func
+            if isinstance(sub, ast.Name) and sub.id in bound_tables:
+                sub = bound_tables[sub.id]  # `combine = TABLE[op]; left = combine(left, right)`
+            if not isinstance(sub, ast.Subscript):
+                continue
+            tbl = _module_literal(f, sub.value)
+            if not (isinstance(tbl, ast.Dict) and isinstance(sub.slice, ast.Name) and sub.slice.id in toks and form(a.value).endswith("(left, right)")
+                    and isinstance(a.targets[0], ast.Name) and a.targets[0].id == acc):
+                continue
+            for k, v in zip(tbl.keys, tbl.values):
+                if not (isinstance(k, ast.Constant) and isinstance(k.value, str)):
+                    continue
+                tok = k.value
+                got = _callable_form(ctx, f, v)
+                remaining.discard(tok)
+                ctx.check("R5", f"parser {tok!r} → {want.get(tok)}", got == want.get(tok), f, a,
+                          f"token {tok!r} is dispatched to `{norm(v)}`, which builds {got!r} instead of {want.get(tok)!r}",
+                          how="entry of the operator dispatch table compared with the operator's SymPy form", construct=f"token {tok} builds [{got!r}]")
         for iff in (n for n in ast.walk(loops[0]) if isinstance(n, ast.If)):
             t = iff.test
             if not (isinstance(t, ast.Compare) and isinstance(t.left, ast.Name) and t.left.id in toks and isinstance(t.comparators[0], ast.Constant)):
